@@ -16,7 +16,7 @@ class Unsupported(Exception):
 
 
 # ---- types -------------------------------------------------------------------------------------
-NAT, X, F, BOOL, AGENT, DIR, INTLIT, UNIT = "nat", "xnum", "F", "bool", "A", "dir", "intlit", "unit"
+NAT, X, F, BOOL, AGENT, DIR, INTLIT, UNIT, ZT = "nat", "xnum", "F", "bool", "A", "dir", "intlit", "unit", "Z"
 def OPT(t): return ("option", t)
 def LIST(t): return ("list", t)
 def TUP(*ts): return ("tuple",) + tuple(ts)
@@ -58,7 +58,7 @@ class Translator:
         self.specs = {(s.module, s.cls, s.func): s for s in specs}
         self.by_call: dict[str, Spec] = {}
         for s in specs:
-            self.by_call[s.func if s.cls is None else "self." + s.func] = s
+            self.by_call[s.func if s.cls is None else f"{s.cls}::self." + s.func] = s
         self.trees: dict[str, ast.Module] = {}
         self.fresh = 0
         self.mutates_param = False
@@ -124,6 +124,7 @@ class Translator:
         sp = self.spec
         if isinstance(n, ast.Name):
             if n.id in env: return env[n.id]
+            if n.id == "self" and "self_value" in sp.attrs: return sp.attrs["self_value"]
             raise Unsupported(f"name {n.id}")
         if isinstance(n, ast.Attribute):
             d = dotted(n)
@@ -138,6 +139,7 @@ class Translator:
         if isinstance(n, ast.Constant):
             if n.value is None: return ("None", OPT(None))
             if isinstance(n.value, bool): return ("true" if n.value else "false", BOOL)
+            if isinstance(n.value, int) and sp.attrs.get("len_as_Z"): return (f"({n.value})%Z", ZT)
             if isinstance(n.value, int) and n.value >= 0: return (str(n.value), INTLIT)
             raise Unsupported(f"const {n.value!r}")
         if isinstance(n, ast.List) and not n.elts:
@@ -163,6 +165,8 @@ class Translator:
             if ty == F:
                 m = {ast.Sub: "sub", ast.Add: "add", ast.Div: "div", ast.Mult: "mul"}
                 if type(n.op) in m and m[type(n.op)] in fo: return (f"({fo[m[type(n.op)]]} {a} {b})", F)
+            if ty == ZT and isinstance(n.op, ast.Sub): return (f"({a} - {b})%Z", ZT)
+            if ty == ZT and isinstance(n.op, ast.Add): return (f"({a} + {b})%Z", ZT)
             if ty == NAT and isinstance(n.op, ast.Sub): return (f"({a} - {b})", NAT)     # truncated: see DESIGN §8
             if ty == NAT and isinstance(n.op, ast.Add): return (f"({a} + {b})", NAT)
             if ty == NAT and isinstance(n.op, ast.Mult): return (f"({a} * {b})", NAT)
@@ -186,6 +190,9 @@ class Translator:
             elif ty == NAT:
                 m = {ast.Lt: f"(Nat.ltb {a} {b})", ast.LtE: f"(Nat.leb {a} {b})", ast.Gt: f"(Nat.ltb {b} {a})",
                      ast.GtE: f"(Nat.leb {b} {a})", ast.Eq: f"(Nat.eqb {a} {b})", ast.NotEq: f"(negb (Nat.eqb {a} {b}))"}
+            elif ty == ZT:
+                m = {ast.Lt: f"(Z.ltb {a} {b})", ast.LtE: f"(Z.leb {a} {b})", ast.Gt: f"(Z.ltb {b} {a})",
+                     ast.GtE: f"(Z.leb {b} {a})", ast.Eq: f"(Z.eqb {a} {b})"}
             elif ty == DIR:
                 m = {ast.Eq: f"(dir_eqb {a} {b})", ast.NotEq: f"(negb (dir_eqb {a} {b}))"}
             elif ty == "mode":
@@ -219,6 +226,8 @@ class Translator:
         if tb == INTLIT and ta == F: return (a, self.flit(b), F)
         if ta == INTLIT and tb == X: return (f"(xint {a})", b, X)
         if tb == INTLIT and ta == X: return (a, f"(xint {b})", X)
+        if ta == INTLIT and tb == ZT: return (f"({a})%Z", b, ZT)
+        if tb == INTLIT and ta == ZT: return (a, f"({b})%Z", ZT)
         if ta == INTLIT and tb in (NAT, INTLIT): return (a, b, NAT)
         if tb == INTLIT and ta == NAT: return (a, b, NAT)
         if ta == tb: return (a, b, ta)
@@ -256,6 +265,9 @@ class Translator:
                     return (f"(firstn ({h} - {k}) (skipn {k} {v}))", tv)                                  # l[k:h]
             if ast.unparse(sl) == "-1":
                 return (f"(last_opt {v})", OPT(tv[1]))
+            if isinstance(sl, ast.Call) and ast.unparse(sl.func) == "int":
+                k, tk = self.tr(sl, env)                 # option Z
+                return (f"(obind {k} (py_getitem {v}))", OPT(tv[1]))
             if isinstance(sl, ast.Constant) and isinstance(sl.value, int) and sl.value >= 0:
                 return (f"(nth_error {v} {sl.value})", OPT(tv[1]))
         raise Unsupported(f"subscript {ast.unparse(n)}")
@@ -301,6 +313,7 @@ class Translator:
         if f == "len" and len(n.args) == 1:
             v, tv = self.tr(n.args[0], env)
             if not (isinstance(tv, tuple) and tv[0] == "list"): raise Unsupported("len of non-list")
+            if sp.attrs.get("len_as_Z"): return (f"(Z.of_nat (length {v}))", ZT)
             return (f"(length {v})", NAT)
         if f == "abs" and len(n.args) == 1:
             v, tv = self.tr(n.args[0], env)
@@ -322,6 +335,11 @@ class Translator:
         if f == "int" and len(n.args) == 1:
             v, tv = self.tr(n.args[0], env); self.need(tv, X)
             return (f"(xtrunc {v})", OPT("Z"))
+        if f == "np.argsort" and len(n.args) == 1 and not n.keywords and not (
+                "argsort_of" in sp.attrs and isinstance(n.args[0], ast.Name) and n.args[0].id == sp.attrs["argsort_of"][0]):
+            arg, ta = self.tr(n.args[0], env)
+            if ta == LIST(NAT): return (f"(argsort_nat {arg})", LIST(NAT))
+            raise Unsupported("np.argsort of a non-index list")
         if f == "np.argsort":
             # only np.argsort([a.cost for a in population], axis=0): the oracle permutation `pi`
             if len(n.args) == 1 and [k.arg for k in n.keywords] in ([], ["axis"]) and "argsort_of" in sp.attrs:
@@ -350,6 +368,11 @@ class Translator:
             # a future of f(args): its value is what .result() later yields
             call = ast.Call(func=n.args[0], args=list(n.args[1:]), keywords=[])
             return self.tr_call(call, env)
+        if f in sp.attrs.get("calls", {}):
+            args = [self.tr(a, env) for a in n.args]
+            return sp.attrs["calls"][f](args)
+        if f.startswith("self.") and f"{sp.cls}::{f}" in self.by_call:
+            f = f"{sp.cls}::{f}"
         if f in self.by_call:
             callee = self.by_call[f]
             argnames, defaults = self.signature_defaults(callee)
@@ -476,6 +499,14 @@ class Translator:
                 env2 = dict(env); env2[x] = (x, ty[1])
                 b, tb = self.tr_body(rest, env2)
                 return (f"match single {t} with None => None | Some {x} =>\n  {b} end", tb)
+            if isinstance(tg, ast.Tuple) and len(tg.elts) >= 2 and all(isinstance(e, ast.Name) for e in tg.elts) \
+                    and not isinstance(st.value, ast.Tuple):
+                t, ty = self.tr(st.value, env)
+                if not (isinstance(ty, tuple) and ty[0] == "tuple" and len(ty) - 1 == len(tg.elts)): raise Unsupported("tuple unpack shape")
+                env2 = dict(env)
+                for e, et in zip(tg.elts, ty[1:]): env2[e.id] = (e.id, NAT if et == INTLIT else et)
+                b, tb = self.tr_body(rest, env2)
+                return (f"let '({', '.join(e.id for e in tg.elts)}) := {t} in\n  {b}", tb)
             if isinstance(tg, ast.Tuple) and isinstance(st.value, ast.Tuple) and len(tg.elts) == len(st.value.elts) \
                     and all(isinstance(e, ast.Name) for e in tg.elts):
                 vals = [self.tr(v, env) for v in st.value.elts]
